@@ -84,8 +84,30 @@ def verify(name, checks, tier, scale):
     print(json.dumps({k: v[k] for k in v if k != "checks"}, indent=None))
 
 
+def verify_all(only=None):
+    import glob
+    rows = []
+    for d in sorted(glob.glob(os.path.join(VERIF, "seeded", "*", "meta.json"))):
+        m = json.load(open(d))
+        if only and not m["name"].startswith(tuple(only)):
+            continue
+        verify(m["name"], [m["property"]], "quick", 1.0)
+        m = json.load(open(d))
+        c = m["verified"]["checks"][m["property"]]
+        rows.append((m["name"], m["property"], c["exit"], ",".join(k.replace("kind=", "") for k in c["kinds"][:3]), c["replay_reproduces"]))
+        with open(os.path.join(VERIF, "seeded", "RESULTS.md"), "w") as f:
+            f.write("# Seeded changes vs. the quick checks (tools/seeded.py verify-all)\n\n| change | property | check exit | violation kinds | replay reproduces |\n|---|---|---|---|---|\n")
+            for r in rows:
+                f.write("| " + " | ".join(str(x) for x in r) + " |\n")
+    missed = [r for r in rows if r[2] != 1]
+    print("verified", len(rows), "missed", [r[0] for r in missed])
+
+
 if __name__ == "__main__":
     a = sys.argv[1:]
+    if a and a[0] == "verify-all":
+        verify_all(a[1:] or None)
+        sys.exit(0)
     if a[0] == "ingest":
         ingest(a[1], a[2], a[3])
     elif a[0] == "verify":
